@@ -215,3 +215,4 @@ MUTANTS += _bnu.MUTANTS
 from contracts import c05 as _c05lm  # noqa: E402
 
 CONTRACTS.append(_c05lm.lmhash_encoding)
+REGISTRY = list(globals().get("REGISTRY", [])) + [_c05lm.policy_for_callers]  # _check_truncate_policy is called by its (C05) contract
